@@ -128,6 +128,20 @@ func (f *Frame) specCall(st *State, e *ast.CallExpr, kind string) []*Term {
 			return []*Term{Eq(ifaceTag(v), c.tagOf(tt))}
 		}
 		return []*Term{f.unbox(st, v, tt)}
+	case kind == "ret0" || kind == "ret1" || kind == "ret2":
+		if len(e.Args) != 1 {
+			f.fail(e, "%s: needs exactly one multi-value call argument", kind)
+		}
+		call, ok := unparen(e.Args[0]).(*ast.CallExpr)
+		if !ok {
+			f.fail(e, "%s: argument must be a call", kind)
+		}
+		rs := f.call(st, call)
+		k := int(kind[3] - '0')
+		if k >= len(rs) {
+			f.fail(e, "%s: call has only %d results", kind, len(rs))
+		}
+		return []*Term{rs[k]}
 	case kind == "has":
 		m := f.expr(st, e.Args[0])
 		mt, ok := types.Unalias(f.typeOf(e.Args[0])).Underlying().(*types.Map)
